@@ -3,11 +3,12 @@
 #  (1) the patch applies, (2) the pinned suite passes with it (guard off), (3) the demo fails with it and passes without.
 # prints one line of JSON with the observations
 D=$1
+MODE=${2:-native}
 WT=/tmp/vseed/wt
 if [ ! -d $WT ]; then mkdir -p /tmp/vseed; git -C /repo worktree add -q --detach $WT HEAD || exit 2; fi
 cd $WT && git checkout -q --detach $(git -C /repo rev-parse HEAD) 2>/dev/null; git checkout -q -- . ; git clean -fdq tests/ src/
 cp $D/demo.rs $WT/tests/demo_seed.rs
-run_demo() { timeout 600 cargo test --offline --test demo_seed 2>&1 | tail -40 > /tmp/vseed/demo.$1.log; grep -q "test result: ok" /tmp/vseed/demo.$1.log && ! grep -q "test result: FAILED" /tmp/vseed/demo.$1.log && echo pass || echo fail; }
+run_demo() { if [ "$MODE" = miri ]; then MIRIFLAGS="-Zmiri-many-seeds=0..16 -Zmiri-disable-stacked-borrows" timeout 1200 cargo +nightly miri test --offline --test demo_seed 2>&1 | tail -60 > /tmp/vseed/demo.$1.log; else timeout 600 cargo test --offline --test demo_seed 2>&1 | tail -40 > /tmp/vseed/demo.$1.log; fi; grep -q "test result: ok" /tmp/vseed/demo.$1.log && ! grep -q "test result: FAILED" /tmp/vseed/demo.$1.log && echo pass || echo fail; }
 WITHOUT=$(run_demo without)
 git apply $D/patch.diff 2>/tmp/vseed/apply.err && APPLY=ok || APPLY=fail
 SUITE=skip
